@@ -33,6 +33,10 @@ M = {
    "toon/parse_row_tabular loop_invariant_step 6 (scanner state follows the S-TOON quoted-string monitor) -> VIOLATION, replay REPRODUCED (decode(encode(v)) fails)"),
  'C12-jsonpath-parser-slice-reset': ('C12', "jsonpath compile(), state slice_expression_stop: the reset slic = slice{} after pushing a two-part slice became buffer.clear()", "one expression with two slice selectors, the earlier with a non-default bound and a later one omitting that bound, e.g. $.a[1:3][:2]",
    "first missed (the slices unit covers evaluation, not parsing); unit jsonpath_slice_parse was added: slice_states postcondition 2 (after a push the accumulator is the default slice) -> VIOLATION, replay REPRODUCED ($[:0,:] selects [])"),
+ 'C02-wchar-is-digit-truncation': ('C02', "is_digit(wchar_t) looks the character up in the 256-entry table after truncating it to its low byte", "wchar_t text (wjson) with a non-ASCII code unit whose low byte is 0x30-0x39 directly after a digit, '.', 'e' or a sign of a number, e.g. [1\u0431]",
+   "first missed (the wchar_t instantiation was not under contract); unit digit_classes was added: is_digit_w postcondition (true exactly for ASCII 0-9 over all 32-bit code units) -> VIOLATION, replay REPRODUCED (wide text [1\u0431] accepted)"),
+ 'C14-add-dash-prefix': ('C14', "jsonpointer::add, array branch: the past-the-end test accepts every token that starts with '-'", "add() whose last token starts with '-' and has length >= 2 (-1, -0, --) addressing an array", None),
+ 'C07-half-neg-infinity': ('C07', "binary::decode_half (software path): inf/NaN returned early, skipping the sign", "CBOR half-precision -Infinity, f9 fc 00", None),
  'C18-csv-minimal-quote-linebreak': ('C18', "csv write_string_value (quote_style minimal): quotes a field for characters of line_delimiter_ only, not for every CR/LF", "minimal quoting and a field containing a lone CR (default delimiter LF) or LF (delimiter CR)", None),
  'C01-grisu-pow2-lower-boundary': ('C01', "grisu3 normalized_boundaries, power-of-two branch: mi.f = (v.f << 2) - 2 instead of - 1", "a double that is an exact power of two at one of ~250 exponents (smallest positive: 2^64), default shortest format", None),
 }
